@@ -256,6 +256,12 @@ def run(F, R, tier):
         m2 = header_mutations(BC) + BC.calls_named("headers_mut")
         R.check(not m2, "C05.R4", "C05.R4:%s:no-header-mutation" % CONV, "%s:%s" % (cv["file"], cv["line"]),
                 "convert_request performs no header mutation")
+    # below the handler the request travels HttpConnectionContext::send_request -> TcpConnectionContext::send_request ->
+    # Client::send_request -> hyper: the three proxy-owned headers reach the host exactly as inserted only if nothing on that chain
+    # touches the request again (a later remove / insert / rebuild can delete or duplicate them); same inventory as C04.R1 / C14.R1
+    from lib import cg
+    from rules.c04 import send_chain_untouched
+    send_chain_untouched(F, R, cg.get(F), "C05.R4")
     # helper contract: the date helper renders the clock, in the HTTP date format
     from lib import contracts
     dh = R.anchor("proxy_agent_shared::misc_helpers::get_date_time_rfc1123_string", "C05.R2")
